@@ -323,7 +323,8 @@ def run_case(ctx):
             d = {}
         elif kind == "negative":
             k = rng.choice(list(d))
-            d[k] = -abs(d[k]) - 0.01
+            # clearly negative, or negative by "round-off" amounts down to the smallest denormal: still negative
+            d[k] = rng.choice([-abs(d[k]) - 0.01, -abs(d[k]) - 0.01, -1e-9, -1e-13, -1e-17, -1e-300, -5e-324])
         elif kind == "ragged":
             k = rng.choice(list(d))
             v = d.pop(k)
@@ -374,6 +375,18 @@ def run_case(ctx):
         ctx.describe(f"marginal n={n} sub={sub} {d!r}", _nontrivial_dict(d) and _collides(d, sub))
         dist = MOD(dict(d))
         sd = dist.subdistribution(sub)
+        # the same qubits, in the same (listed) order, spelled as other ordered containers the signature accepts
+        how = rng.choice(["tuple", "ndarray", "np-ints", "range", "dict-keys", "list"])
+        if how == "range" and len(sub) >= 2:
+            step = rng.choice([-1, 1, 2, -2])
+            start = rng.randrange(n)
+            alt = range(start, -1 if step < 0 else n, step)
+            alt = alt if len(alt) else range(n - 1, -1, -1)
+        else:
+            alt = {"tuple": tuple(sub), "ndarray": np.array(sub), "np-ints": [np.int64(q) for q in sub],
+                   "dict-keys": dict.fromkeys(sub).keys(), "list": list(sub), "range": tuple(sub)}[how]
+        ctx.mon.note(f"subdistribution-argument:{how}")
+        dist.subdistribution(alt)
         # marginal of a marginal = marginal (driver-level relational check)
         if len(sub) >= 2:
             pos = rng.sample(range(len(sub)), rng.randint(1, len(sub)))
